@@ -32,6 +32,9 @@ type c11Target struct {
 	Addr  string `json:"addr"`
 	HTTPS bool   `json:"https"`
 	Extra string `json:"extra,omitempty"`
+	// Param: value of a __param_target label (blackbox style: several targets of a job behind one exporter address
+	// and path differ only in a url parameter)
+	Param string `json:"param,omitempty"`
 }
 
 type c11Case struct {
@@ -131,6 +134,9 @@ func runC11Phase(rec *vkit.Recorder, c *c11Case, spec *Spec, st *c11State) (vs [
 			sch = "https"
 		}
 		ls := labels.Labels{{Name: "__address__", Value: t.Addr}, {Name: "__metrics_path__", Value: "/metrics"}, {Name: "__scheme__", Value: sch}, {Name: "instance", Value: t.Addr}, {Name: "job", Value: t.Job}}
+		if t.Param != "" {
+			ls = append(labels.Labels{ls[0], ls[1], {Name: "__param_target", Value: t.Param}}, ls[2:]...)
+		}
 		if t.Extra != "" {
 			ls = append(ls, labels.Label{Name: "extra", Value: t.Extra})
 		}
@@ -497,6 +503,12 @@ func genC11(t *rapid.T) *c11Case {
 			h++
 			c.Targets = append(c.Targets, c11Target{Job: j.Name, Hash: h * 2654435761, Addr: fmt.Sprintf("10.1.%d.%d:9100", len(c.Targets), k),
 				HTTPS: rapid.Bool().Draw(t, fmt.Sprintf("https-%d", h)), Extra: rapid.SampledFrom([]string{"", "x", "a: b", "quo\"te"}).Draw(t, fmt.Sprintf("extra-%d", h))})
+			if k > 0 && rapid.IntRange(0, 2).Draw(t, fmt.Sprintf("sameEndpoint-%d", h)) == 0 {
+				// behind the same exporter as the previous target of the job, told apart by a url parameter
+				cur, prev := &c.Targets[len(c.Targets)-1], c.Targets[len(c.Targets)-2]
+				cur.Addr, cur.HTTPS = prev.Addr, prev.HTTPS
+				cur.Param = fmt.Sprintf("probe-%d.example:443", k)
+			}
 		}
 	}
 	// the same target (same final labels and URL, hence the same hash) may be assigned under two jobs of one shard: two
